@@ -9,6 +9,7 @@ import DirectVerif.Model.MaskBudget
                          `equi_count_decomp`)                                             → `ok bound | counts`
   `gauss1d N L Rn Rd | candidates`        candidate columns of the libc stream           → `ok k returned count | bits`
   `gauss2d nrow ncol Rn Rd | acs bits | x₀ y₀ x₁ y₁ …`                                  → `ok k returned count`
+  `gchoose N uniform choice | accs (n d)* | cfs (n d)*`  the pair used, #ACS, request  → `ok choice L k` / `err NotImplementedError`
   `bisect Rn Rd tn td | an ad stalled … | post flags`  accelerations seen by the tolerance test; the table of
                          statements after it  → `ok code iters num den` (acceleration of the RETURNED mask)
 -/
@@ -60,6 +61,14 @@ def step (op : String) (gs : List (List Int)) : String :=
     match gaussLoop k ((pairs xy).map fun (x, y) => cell2d nrow ncol x y) 0 m0 with
     | some m => okG [[k, 1, countTrue m]]
     | none => okG [[k, 0, 0]]
+  | "gchoose", [[N, uniform, choice], accs, cfs] =>
+    -- which pair a Gaussian1D call uses, its ACS size and its request
+    let toQ := fun (l : List Int) => (pairs l).map fun (n, d) => q n d
+    match chooseAcceleration (uniform != 0) (toQ accs) (toQ cfs) choice.toNat with
+    | .error e => "err " ++ e
+    | .ok (c, r) =>
+      let L := numLowFreqs N c
+      okG [[choice, L, gaussianRequest ((N : Rat) / r) L]]
   | "bisect", [[Rn, Rd, tn, td], ps, postFlags] =>
     -- post statements from the generated table; a mask-modifying one has an effect the model cannot know: sentinel -1
     match poisson (q Rn Rd) (q tn td) (probes ps) (postOfTable (postFlags.map fun f => ("", f != 0)) fun _ => -1) with
